@@ -132,7 +132,8 @@ func (bA *BitArray) Or(o *BitArray) *BitArray {
 	bA.mtx.Lock()
 	defer bA.mtx.Unlock()
 	c := bA.copyBits(MaxInt(int(bA.Bits), int(o.Bits)))
-	for i := 0; i < len(c.Elems); i++ {
+	// o may be the shorter one (e.g. the empty array a peer sends when it has no votes)
+	for i := 0; i < len(c.Elems) && i < len(o.Elems); i++ {
 		c.Elems[i] |= o.Elems[i]
 	}
 	return c
